@@ -2,6 +2,7 @@ package main
 
 import (
 	"fmt"
+	"math"
 	"strconv"
 	"strings"
 	"verifharness/docs"
@@ -242,6 +243,9 @@ func c15(r *mon.Run) {
 		gen.Field("missing"), gen.Chain(gen.Field("o"), gen.StField("missing")), gen.Chain(x(), gen.StIndex(9)), gen.LitJSON("null"), gen.Chain(gen.Field("o"), gen.StField("p")), gen.Chain(x(), gen.StIndex(0)),
 		gen.LitJSON("16777217"), gen.LitJSON("[123456789, 16777217]"),
 		gen.Raw("it's"), gen.MultiList(gen.Raw("a'b"), gen.Field("k")), gen.Chain(x(), gen.StFilter(gen.Cmp("!=", gen.Field("k"), gen.Raw("it's")))),
+		// a negative zero as the whole intermediate value (and inside one): it crosses the pipe, and the API, as what it is
+		gen.Func("ceil", gen.Field("nf")), gen.Field("nz"), gen.LitJSON("-0.0"), gen.Func("abs", gen.Field("nz")), gen.MultiList(gen.Func("ceil", gen.Field("nf"))), gen.Func("sum", gen.MultiList(gen.Field("nz"), gen.Field("nz"))), gen.Func("to_number", gen.Raw("-0")),
+		gen.Cmp("==", gen.Field("nz"), gen.LitJSON("0")), gen.Not(gen.Field("missing")), gen.Cmp("<", gen.Field("nf"), gen.LitJSON("0")),
 		// projections whose right-hand side is null for SOME elements (a null member, a member only every other element has): the
 		// left step drops them, so the right step never sees them - fusing the two steps into one loop would
 		gen.Chain(x(), gen.StListStar(), gen.StField("a")), gen.Chain(x(), gen.StListStar(), gen.StField("h")), gen.Chain(x(), gen.StFlatten(), gen.StField("h")), gen.Chain(x(), gen.StFilter(gen.Field("k")), gen.StField("h")),
@@ -249,6 +253,7 @@ func c15(r *mon.Run) {
 		gen.Chain(gen.Field("y"), gen.StListStar(), gen.StListStar(), gen.StField("h")), gen.Chain(x(), gen.StListStar(), gen.StMultiList(gen.Field("h"))), gen.Chain(x(), gen.StListStar(), gen.StField("h"), gen.StField("deeper")),
 	}
 	Bs := []*gen.Expr{
+		gen.Func("to_string", gen.MultiList(gen.Current())), gen.MultiList(gen.Func("to_string", gen.Current()), gen.Func("type", gen.Current())), gen.Not(gen.Current()), gen.Cmp("==", gen.Current(), gen.LitJSON("true")),
 		gen.Chain(nil, gen.StListStar(), gen.StFunc("type", gen.Current())), gen.Chain(nil, gen.StListStar(), gen.StFunc("to_string", gen.Current())), gen.Chain(nil, gen.StListStar(), gen.StFunc("not_null", gen.Current(), gen.LitJSON("0"))),
 		gen.Chain(nil, gen.StFlatten(), gen.StFunc("type", gen.Current())), gen.Chain(nil, gen.StFilter(gen.Cmp("==", gen.Func("type", gen.Current()), gen.Raw("null")))), gen.Chain(nil, gen.StListStar(), gen.StMultiList(gen.Current())),
 		gen.Chain(nil, gen.StSliceS("", "", "-1"), gen.StFunc("type", gen.Current())), gen.Chain(nil, gen.StFilter(gen.Not(gen.Current()))), gen.Func("map", gen.ExpRef(gen.Func("type", gen.Current())), gen.Current()), gen.Chain(nil, gen.StSliceS("1", "", ""), gen.StMultiHash(keyA("v"), []*gen.Expr{gen.Current()})),
@@ -281,7 +286,7 @@ func c15(r *mon.Run) {
 			return arr
 		}
 		xs := mk(4)
-		sdocs = append(sdocs, map[string]interface{}{"x": xs, "o": map[string]interface{}{"p": xs[0], "q": xs[1], "r": xs[2]}, "y": []interface{}{mk(2), mk(4)}})
+		sdocs = append(sdocs, map[string]interface{}{"nf": -0.4, "nz": math.Copysign(0, -1), "x": xs, "o": map[string]interface{}{"p": xs[0], "q": xs[1], "r": xs[2]}, "y": []interface{}{mk(2), mk(4)}})
 	}
 	nA, nB, nD := len(As), len(Bs), len(sdocs)
 	shaped := mon.Workload{Name: "pipe-after-projection", N: nA * nB * nD,
@@ -657,7 +662,9 @@ func c15(r *mon.Run) {
 	}
 	hbCtx := []func(e *gen.Expr) *gen.Expr{
 		func(e *gen.Expr) *gen.Expr { return gen.MultiList(append([]*gen.Expr{e}, readers()...)...) },
-		func(e *gen.Expr) *gen.Expr { return gen.MultiList(append(append(readers()[6:], e), readers()[6:]...)...) },
+		func(e *gen.Expr) *gen.Expr {
+			return gen.MultiList(append(append(readers()[6:], e), readers()[6:]...)...)
+		},
 		func(e *gen.Expr) *gen.Expr {
 			return gen.MultiHash([]gen.Key{{Name: "e"}, {Name: "a"}, {Name: "s"}, {Name: "x"}, {Name: "o"}}, []*gen.Expr{e, gen.Field("an"), gen.Field("as"), gen.Field("ao"), gen.Field("o")})
 		},
@@ -721,5 +728,31 @@ func c15(r *mon.Run) {
 			}
 			t.Nontrivial("dp:" + strconv.Itoa(i))
 		}}
-	r.Exec(law1, law2, shaped, dead, behind, akPipe, hugew, lpw, ff, hbw, dpw)
+	// the pipe law over large lists: a budget, a counter or a buffer that one Search keeps is not shared by the two steps of a pipe in
+	// a way that makes the whole fail where each step succeeds (100 000 to 600 000 elements, projections on both sides)
+	bigN := []int{100000, 300000, 400000, 600000}
+	bigPairs := [][2]string{{"a[*]", "[*]"}, {"a[*].n", "[?@ > `0`]"}, {"a[?n > `0`]", "[*].n"}, {"a[*].n", "length(@)"}, {"a[].n", "[*] | length(@)"}, {"a", "[*].n | [-1]"}, {"a[*]", "[*].n | sum(@)"}}
+	blw := mon.Workload{Name: "pipe-law-over-large-lists", N: len(bigN) * len(bigPairs), Serial: true, Batch: 1,
+		Do: func(i int, t *mon.Tally) {
+			n, pr := bigN[i/len(bigPairs)], bigPairs[i%len(bigPairs)]
+			arr := make([]interface{}, n)
+			for k := range arr {
+				arr[k] = map[string]interface{}{"n": float64(k%7 + 1)}
+			}
+			doc := map[string]interface{}{"a": arr}
+			t.Eval()
+			ow := apiSearch(pr[0]+" | "+pr[1], doc)
+			oa := apiSearch(pr[0], doc)
+			ob := oa
+			if !oa.Panicked && oa.Err == nil {
+				ob = apiSearch(pr[1], oa.V)
+			}
+			if ow.Panicked || ob.Panicked || !sameOutcome(ow, ob) {
+				r.Violate(&mon.Violation{Workload: "pipe-law-over-large-lists", Index: i, API: "Search", Expr: pr[0] + " | " + pr[1], DocDesc: fmt.Sprintf("{\"a\": a list of %d objects {\"n\": 1..7}}", n),
+					Expected: "Search(B, Search(A, d)): " + brief(ob.String()), Observed: brief(ow.String()), Class: "pipe law over large lists"})
+				return
+			}
+			t.Nontrivial("big:" + strconv.Itoa(i))
+		}}
+	r.Exec(law1, law2, shaped, dead, behind, akPipe, hugew, lpw, ff, hbw, dpw, blw)
 }
